@@ -370,11 +370,11 @@ func probeCase(e *core.Env, ci int, p *probeSpec) {
 		core.Wait()
 		minDone, maxDone, maxStarted := shape()
 		if maxStarted-minDone > 1 || maxDone-minDone > 1 {
-			viol("round_shape", tag, map[string]any{"min_done": minDone, "max_done": maxDone, "max_started": maxStarted}, "members are not probed once per round: completed %d..%d, started up to %d", minDone, maxDone, maxStarted)
+			viol("round_shape", "any", map[string]any{"observation": tag, "min_done": minDone, "max_done": maxDone, "max_started": maxStarted}, "members are not probed once per round: completed %d..%d, started up to %d", minDone, maxDone, maxStarted)
 			return
 		}
 		if wantRounds >= 0 && (minDone != wantRounds || maxStarted != wantRounds) {
-			viol("round_shape", tag, map[string]any{"min_done": minDone, "max_started": maxStarted, "want": wantRounds},
+			viol("round_shape", "before-tick", map[string]any{"observation": tag, "min_done": minDone, "max_started": maxStarted, "want": wantRounds},
 				"right before tick %d every member should have completed exactly %d probes: completed %d, started %d", wantRounds+1, wantRounds, minDone, maxStarted)
 			return
 		}
@@ -406,6 +406,11 @@ func probeCase(e *core.Env, ci int, p *probeSpec) {
 			trail = append(trail, fmt.Sprint(pos))
 			if pos != prevPos {
 				events["switch"] = true
+				rec.Count("served_client_changes", 1)
+				if k >= keepAvailability {
+					events["switch-after-wrap"] = true
+					rec.Count("served_client_changes_after_round_64", 1)
+				}
 			}
 			if tied > 1 {
 				events["tie-first"] = true
@@ -462,7 +467,6 @@ func probeCase(e *core.Env, ci int, p *probeSpec) {
 		if got1 != wantIdx || got2 != wantIdx {
 			what := "wrong_client"
 			if inFlight {
-				// which round's result would explain it?
 				what = "changed_during_round"
 			}
 			viol(what, phase, ex, "%s after %d rounds: NewStreamDialer -> client %d, DialStream -> client %d, model says client %d (position %d, %d tied for best)",
